@@ -27,8 +27,7 @@ ASSUME = ["'missing TLE data' = no element set within tle_thresh days, or no TLE
           "an unset TLE directory raises RuntimeError (configuration error)",
           "float64 vs exact rationals: 1 ms on times, 1e-4 line on the fractional line, 1e-9 s on interpolated errors",
           "pyorbital's propagation is the reference for (B): the harness calls it with its own times and scan positions"]
-TB = ["coqc 8.16.1 kernel; Reals axioms for the slerp lemmas (C09_slerp_*)", "translator/gen.py (Gen_Drift: AST of _adjust_clock_drift / "
-      "_compute_missing_lonlat / get_lonlat, Gen_Clock tables)", "correspondence check_drift / check_offsets evaluated in Coq",
+TB = ["coqc 8.16.1 kernel; Reals axioms for the slerp lemmas (C09_slerp_*)", "translator/gen.py (Gen_Drift: line periods, tie-point scan positions, KLM no-op, call sites from the live objects; Gen_Clock tables)", "correspondence check_drift / check_offsets evaluated in Coq",
       "the orbit computation and slerp's trigonometry are oracles of the model (slerp contract slerp p q 0 = p)"]
 
 BASE_LON_STEP = 32.0     # tie-point longitude (degrees) = (line - base) / 32 + 0.5 * column
